@@ -109,6 +109,7 @@ func (c C20) Run(t *tape.Tape, opt core.RunOpt) (res core.Result) {
 		return
 	}
 	w.ResolverEvents = t.Bool(1, 2)
+	w.BadEvents = t.Bool(1, 3)
 	family := t.Draw(5)
 	nextSid, nextEv := 1, 1
 	newSub := func(topic string) *workload.SimSub {
@@ -402,10 +403,15 @@ func c20Analyse(res *core.Result, w *workload.SubWorld, s *sched.Sched, pre []in
 		if isPub {
 			seen := map[int]int{}
 			failed := map[int]bool{}
+			resolveErrs := 0 // selections applied to an event whose msg field does not resolve: an error of the publish, not a failed delivery
 			for _, sd := range cl.Sends {
 				seen[sd.Sid]++
 				sb := w.Subs[sd.Sid]
-				if want := workload.SubSelections[sb.SelIndex].Expect(cl.Op.N); sd.Value != want {
+				want, rerr := workload.ExpectFor(sb.SelIndex, cl.Op.N, w.BadEvents && workload.BadEvent(cl.Op.N))
+				if rerr {
+					resolveErrs++
+				}
+				if sd.Value != want {
 					res.Violate("C20", "wrong_message", fmt.Sprintf("%s delivered %s to subscriber %d, expected %s", cl.Op, sd.Value, sd.Sid, want), nil)
 				}
 				if !sd.OK {
@@ -431,8 +437,8 @@ func c20Analyse(res *core.Result, w *workload.SubWorld, s *sched.Sched, pre []in
 			if cl.Cnt != len(cl.Sends) || matched != len(cl.Sends) {
 				res.Violate("C20", "publish_count_wrong", fmt.Sprintf("%s reported %d, matched %d subscribers, delivered %d", cl.Op, cl.Cnt, matched, len(cl.Sends)), nil)
 			}
-			if cl.Err != (len(failed) > 0) {
-				res.Violate("C20", "publish_error_mismatch", fmt.Sprintf("%s: error=%v but %d deliveries failed", cl.Op, cl.Err, len(failed)), nil)
+			if cl.Err != (len(failed) > 0 || resolveErrs > 0) {
+				res.Violate("C20", "publish_error_mismatch", fmt.Sprintf("%s: error=%v but %d deliveries failed and %d selections hit a field that does not resolve", cl.Op, cl.Err, len(failed), resolveErrs), nil)
 			}
 			// I4: a subscriber registered before the publish started and not removed
 			// before it returned gets the event exactly once
